@@ -214,6 +214,8 @@ def build_gms(variant, i, mode, rep, ref, env, msi=None, setup=None):
     from types import SimpleNamespace as NS
     fixups = variant.startswith('fixups')
     rng = variant.startswith('range')
+    if rng and int(i.get('encoded_len', 0)) > 2_000_000:
+        raise ValueError('witness segment too large to realise')          # (a build error, not an observation)
     if fixups or rng:
         variant = 'vod-number-video'
     kind = variant.split('-')[1]
